@@ -148,4 +148,18 @@ class ResourceMemories(admission.MemoGetter, daemons.DaemonsMemoriesIterator):
 
         But it must be consistent within a single process lifetime.
         """
-        return raw_body.get('metadata', {}).get('uid') or ''
+        meta = raw_body.get('metadata', {})
+        if meta.get('uid'):
+            return meta['uid']
+
+        # Some resources have no uids (e.g. ``v1/ComponentStatus``). Keep them apart from each other
+        # by the same surrogate identity as the one of their queues/workers (``queueing.get_uid()``):
+        # otherwise, they all share one memory --- memos, daemons, indexing retries & exclusions, etc.
+        ids = [
+            raw_body.get('kind'),
+            raw_body.get('apiVersion'),
+            meta.get('name'),
+            meta.get('namespace'),
+            meta.get('creationTimestamp'),
+        ]
+        return '//'.join([s or '-' for s in ids])
